@@ -15,7 +15,11 @@ REGISTRY = {
     "C05": ("bpmc.checks.c05", "C05"),
     "C06": ("bpmc.checks.c06", "C06"),
     "C07": ("bpmc.checks.c07", "C07"),
+    "C08": ("bpmc.checks.c08", "C08"),
+    "C09": ("bpmc.checks.c09", "C09"),
+    "C11": ("bpmc.checks.c11", "C11"),
     "C12": ("bpmc.checks.c12", "C12"),
+    "C13": ("bpmc.checks.c13", "C13"),
     "C14": ("bpmc.checks.c14", "C14"),
     "C16": ("bpmc.checks.c16", "C16"),
 }
